@@ -163,6 +163,13 @@ impl RedbStore {
         let inner = self.inner.clone();
         let guard = self.task_counter.guard();
 
+        #[cfg(eigerco_lumina_verif)]
+        if crate::verif::inline_blocking() {
+            let _guard = guard;
+            let mut tx = inner.db.begin_read()?;
+            return f(&mut tx);
+        }
+
         spawn_blocking(move || {
             let _guard = guard;
 
@@ -184,6 +191,21 @@ impl RedbStore {
     {
         let inner = self.inner.clone();
         let guard = self.task_counter.guard();
+
+        #[cfg(eigerco_lumina_verif)]
+        if crate::verif::inline_blocking() {
+            let _guard = guard;
+            let mut tx = inner.db.begin_write()?;
+            let res = f(&mut tx);
+
+            if res.is_ok() {
+                tx.commit()?;
+            } else {
+                tx.abort()?;
+            }
+
+            return res;
+        }
 
         spawn_blocking(move || {
             let _guard = guard;
